@@ -631,3 +631,35 @@ prop("C07",
                   "(single-assignment temporaries + dependencies)"],
      unverified_surroundings=["loopy preprocessing/scheduling/C generation",
                               "execution (pyopencl)"])
+
+prop("C08",
+     level="translation_validation",
+     level_text=(
+         "PARTIAL claim, value part only: for every listed multi-rank program "
+         "the partition returned by the real find_distributed_partition "
+         "(interpreted on every rank) is wired together -- received names to "
+         "the data of the matching send, part-output names to their "
+         "expressions -- and proved (z3) to denote, for all inputs and "
+         "indices, what the unpartitioned global data-flow graph denotes; "
+         "together with C09's proof that the global part graph (local order + "
+         "messages) is acyclic this is schedule-independent faithfulness of "
+         "the *values*."),
+     level_note=(
+         "NOT decided: termination under every message-arrival order, the "
+         "executor's readiness test / Waitsome loop / reference-count "
+         "release (pytato/distributed/execute.py needs MPI requests and "
+         "pyopencl; its main loop is a liveness + cardinality argument "
+         "outside per-function contracts, DESIGN §7). Programs are listed."),
+     technique="contract-based translation validation: denotation of the "
+               "partition produced by the real partitioner vs. denotation of "
+               "the source graphs, z3",
+     design_ref="DESIGN.md §12 (C08)",
+     explanation="see contracts/c09_partition.py (value_preserved) and "
+                 "pyvc/dist_programs.py (global_original/global_partitioned)",
+     structural_bound="10 program shapes x 2..3 ranks x 2 ways of attaching "
+                      "sends",
+     trusted_base=["fake MPI collectives (pyvc/fakempi.py)",
+                   "index-lambda semantics (pyvc/den.py)"],
+     assumptions=["MPI delivers each message to the matching receive"],
+     unverified_surroundings=["pytato/distributed/execute.py", "mpi4py",
+                              "pyopencl"])
